@@ -193,6 +193,8 @@ pub fn run(tier: Tier, seed: u64) -> i32 {
     for j in 0..6 {
         body.push(Stmt::Row(vec![Entry::Lit(j as i64 % 2, Radix::Dec), exp(j), exp(j + 2), exp(j + 4)]));
     }
+    // a set-up row that expects nothing at all: what the device shows is reported all the same
+    body.insert(2, Stmt::Row(vec![Entry::Lit(1, Radix::Dec), Entry::X, Entry::X, Entry::X]));
     body.push(Stmt::Row(vec![Entry::C, Entry::Lit(15, Radix::Dec), Entry::Z, Entry::X]));
     let prog = Program { header: vec!["A".into(), "Q".into(), "R".into(), "D_out".into()], body };
     let mut cases = vec![];
